@@ -698,6 +698,21 @@ func joinInventory(c *Ctx) {
 					var recv core.Path
 					for i, a := range args {
 						ac, isCall := ast.Unparen(a).(*ast.CallExpr)
+						if !isCall {
+							// a local that holds the accessor's result (host := n.Host(), also in a parallel assignment)
+							if id, isId := ast.Unparen(a).(*ast.Ident); isId {
+								if v, isV := info.Uses[id].(*types.Var); isV {
+									if _, _, cnt := singleDef(info, fn.Body, v); cnt != 1 {
+										continue
+									}
+									for _, x := range expand(g, a, 1) {
+										if e, isE := x.(ast.Expr); isE && x != ast.Node(a) {
+											ac, isCall = ast.Unparen(e).(*ast.CallExpr)
+										}
+									}
+								}
+							}
+						}
 						if !isCall || i >= 4 || core.CalleeName(info, ac) != namesPkg+".Name."+want[i] {
 							ok = false
 							continue
@@ -711,7 +726,16 @@ func joinInventory(c *Ctx) {
 					}
 					fq := false
 					for _, a := range g.AtomsAt(g.Locate(call)) {
-						if cc, isC := ast.Unparen(a.Expr).(*ast.CallExpr); isC && a.Val && core.CalleeName(info, cc) == namesPkg+".Name.IsFullyQualified" {
+						ae := ast.Unparen(a.Expr)
+						// `if q := n.IsFullyQualified(); !q`: the tested local holds the call's result
+						if id, isId := ae.(*ast.Ident); isId {
+							if v, isV := info.Uses[id].(*types.Var); isV {
+								if rhs, _, cnt := singleDef(info, fn.Body, v); cnt == 1 && rhs != nil {
+									ae = ast.Unparen(rhs)
+								}
+							}
+						}
+						if cc, isC := ae.(*ast.CallExpr); isC && a.Val && core.CalleeName(info, cc) == namesPkg+".Name.IsFullyQualified" {
 							if p := core.PathOf(info, cc.Fun.(*ast.SelectorExpr).X); p.Valid() && recv.Valid() && p.Key() == recv.Key() {
 								fq = true
 							}
